@@ -44,4 +44,11 @@ CLAIMED.update({
   "technique": "frame-condition checking (effect analysis) plus seed-flow analysis of the real AST; native replay of interleaved histories",
  },
 })
+CLAIMED.update({
+ "C19": {
+  "text": "Unbounded proof for all array sizes, steps and numbers of lags (loop summary S2 of the real lag loop with a proved inverse index map; Sigma extensionality): calculate_structure_function returns int(min(nbOfPoint, cols/step - 1)) values, 0 at lag 0, and at lag j the mean over the overlapping rows and all columns of (phase[r,c] - phase[r+j*step,c])^2, for explicit arguments and for the defaults. calc_slope_temporalps returns, for every batch item and bin k < floor(n_frames/2), the mean over sub-apertures of |FFT along the frame axis|^2 and the std/sqrt(n) error; get_tps_time_axis[k] = k*frame_rate/n_frames with length floor(n_frames/2). Ramp / quadratic-in-amplitude / Parseval / sinusoid-peak clauses are consequences checked natively (bounded).",
+  "note": BASE + "the DFT along the frame axis is an opaque library function (congruent in input, axis and length): Parseval and the sinusoid peak are properties of numpy.fft, not re-proved; calculate_structure_function requires every requested lag to leave at least one overlapping row.",
+  "technique": "symbolic execution with loop summaries (generic iteration + inverse index map obligation) and Sigma-term extensionality; z3",
+ },
+})
 NOT_APPLICABLE = {}
